@@ -315,31 +315,36 @@ fn cpu_segment() -> Vec<(Program, usize)> {
     out
 }
 
-pub fn sweep_size() -> u64 {
-    let b = bases();
-    b.iter().map(|x| base_calls(x).len() as u64).sum::<u64>() + static_calls().len() as u64 + cpu_segment().len() as u64
+/// The whole sweep, built once per process.
+fn sweep() -> &'static Vec<(Program, usize)> {
+    static SWEEP: std::sync::OnceLock<Vec<(Program, usize)>> = std::sync::OnceLock::new();
+    SWEEP.get_or_init(|| {
+        let mut all = vec![];
+        for b in bases() {
+            for c in base_calls(&b) {
+                all.push((Program { base: b.clone(), calls: vec![c] }, 0));
+            }
+        }
+        for c in static_calls() {
+            all.push((
+                Program {
+                    base: Base { repr: 0, order: 1, arcs: vec![], extra_ids: vec![], drop_ids: vec![] },
+                    calls: vec![c],
+                },
+                0,
+            ));
+        }
+        all.extend(cpu_segment());
+        all
+    })
 }
 
-pub fn sweep_case(mut idx: u64) -> Option<(Program, usize)> {
-    for b in bases() {
-        let calls = base_calls(&b);
-        if idx < calls.len() as u64 {
-            return Some((Program { base: b, calls: vec![calls[idx as usize].clone()] }, 0));
-        }
-        idx -= calls.len() as u64;
-    }
-    let s = static_calls();
-    if let Some(c) = s.get(idx as usize) {
-        return Some((
-            Program {
-                base: Base { repr: 0, order: 1, arcs: vec![], extra_ids: vec![], drop_ids: vec![] },
-                calls: vec![c.clone()],
-            },
-            0,
-        ));
-    }
-    idx -= s.len() as u64;
-    cpu_segment().into_iter().nth(idx as usize)
+pub fn sweep_size() -> u64 {
+    sweep().len() as u64
+}
+
+pub fn sweep_case(idx: u64) -> Option<(Program, usize)> {
+    sweep().get(idx as usize).cloned()
 }
 
 /// Cases for the Miri leg: the part of the sweep where undefined behaviour
@@ -650,7 +655,7 @@ impl Prop for C13 {
             },
             Leg {
                 name: "random-asan",
-                kind: LegKind::Random { cases: tier.pick(3000, 40_000) },
+                kind: LegKind::Random { cases: tier.pick(12_000, 80_000) },
                 workers: 16,
                 build: Build::Asan,
             },
@@ -662,7 +667,7 @@ impl Prop for C13 {
             },
             Leg {
                 name: "random-leak",
-                kind: LegKind::Random { cases: tier.pick(300, 4000) },
+                kind: LegKind::Random { cases: tier.pick(1500, 10_000) },
                 workers: 16,
                 build: Build::Normal,
             },
